@@ -191,6 +191,38 @@ def _eq(a, b):
 
 def _check_accessors(x, truth, order, alg, ref, case, form):
     d = ref.d
+    _check_accessors_inner(x, truth, order, alg, ref, case, form)
+    # reading must not write: after every accessor above the multivector still holds exactly the supplied coefficients
+    after = kd.to_dict(x, op=form)
+    if set(after) != set(truth) or any(not _eq(after[k], truth[k]) for k in truth):
+        raise Violation("items-reflect-input", form, f"the accessors changed the multivector: now {kd.show(after)}, supplied {kd.show(truth)}")
+    # the same element with an infinite first coefficient and with array-valued coefficients: absent blades still read 0,
+    # reading through an odd spelling does not negate the stored arrays
+    import numpy as np
+    keys = list(truth)
+    if keys and all(isinstance(v, (int, F)) for v in truth.values()) and not case["graded"]:
+        xi = kd.mk_raw(alg, keys, [float("inf")] + [float(truth[k]) for k in keys[1:]])
+        full = xi.asfullmv()
+        for k, v in zip(full.keys(), full.values()):
+            if k not in truth and not (v == 0):
+                raise Violation("asfullmv", "asfullmv", f"asfullmv() of a multivector whose first coefficient is inf reads {v!r} on the absent blade "
+                                f"{ref.bin2name[k]} (expected 0)")
+        arr = [np.array([float(truth[k]), float(truth[k]) + 1.0]) for k in keys]
+        xa = kd.mk_raw(alg, keys, [a.copy() for a in arr])
+        for bits in case["probe"][:4]:
+            s_, key, nm = _sign(ref, bits)
+            g = getattr(xa, nm)
+            exp = (arr[keys.index(key)] * s_) if key in truth else 0
+            if not np.allclose(np.asarray(g, dtype=float), np.asarray(exp, dtype=float)):
+                raise Violation("attribute-access", "getattr", f"array-valued x.{nm} = {g!r}, expected {exp!r}")
+        for a0, a1 in zip(arr, xa.values()):
+            if not np.array_equal(a0, np.asarray(a1)):
+                raise Violation("attribute-access", "getattr", f"reading coefficients changed the stored arrays: {[list(a) for a in arr]} -> "
+                                f"{[list(np.asarray(a)) for a in xa.values()]}")
+
+
+def _check_accessors_inner(x, truth, order, alg, ref, case, form):
+    d = ref.d
     if not isinstance(x, kd.MultiVector):
         raise Violation("construct", form, f"constructor returned {type(x).__name__}")
     got = kd.to_dict(x, op=form)
